@@ -20,6 +20,11 @@ from common import RUSTFMT, Scratch, base_env, run
 
 SPECIALS = [
     ("plain", "abc"),
+    # each XML special on its own (an escaping routine may look for one of them to decide whether to escape at all)
+    ("lt", "a<b"),
+    ("gt", "a>b"),
+    ("amp", "a&b"),
+    ("apos", "it's"),
     ("xml", "<a & b> 'q' \\\"z\\\""),
     ("cdata", "</checkstyle> ]]> &amp; &#10; <!-- -->"),
     ("nonbmp", "\U0001F980 \U0010FFFF é"),
@@ -51,7 +56,7 @@ def main():
     r = common.Run(
         "C12",
         "exploration",
-        "CLI half: all ordered pairs of 10 special source lines (XML/JSON metacharacters, CDATA terminators, non-BMP, "
+        "CLI half: all ordered pairs of 14 special source lines (each XML special alone and combined, XML/JSON metacharacters, CDATA terminators, non-BMP, "
         "backslashes, tabs, form feed, control characters, DEL) in a comment and a string literal of an unformatted file x "
         "{path, stdin} x {json, checkstyle}, parsed with Python's json / xml.etree. Non-trivial = the report is non-empty.",
         ["Python's json and xml.etree.ElementTree decide well-formedness"],
@@ -64,6 +69,10 @@ def main():
         # never well-formed (known finding; the repository's own fixture tests/writemode/target/stdin.xml
         # pins that text, so it is not repaired): explored on three pairs only.
         cases = [c for c in cases if not (c[4] == "checkstyle" and c[5] == "stdin") or (c[0], c[2]) in (("plain", "plain"), ("xml", "xml"), ("nonbmp", "tab"))]
+        # control characters are copied raw into the checkstyle document (known finding, listed for the pairs of
+        # the original ten specials): the single XML specials are not paired with the control-character lines
+        singles, ctls = {"lt", "gt", "amp", "apos"}, {"ctl", "formfeed"}
+        cases = [c for c in cases if not ((c[0] in singles and c[2] in ctls) or (c[0] in ctls and c[2] in singles))]
 
         def one(c):
             an, a, bn, b, mode, via = c
